@@ -319,3 +319,17 @@ Theorem C09_concurrent_encode :
     | Panic => k_ph c = EDone Panic
     end.
 Proof. exact concurrent_encode. Qed.
+
+(** Finding binary-behind-deep-wrappers: outside the side condition [wfv] (here: a Binary behind
+    a pointer to an interface, any -> *any -> Binary, which neither hasBinary nor deconstructValue
+    reaches) Encode succeeds but the frames are NOT the ones the protocol prescribes: the bytes
+    of the Binary (here the four bytes n u l l) are written into the payload as JSON instead of becoming an attachment. *)
+Theorem C09_wire_deep_wrappers_refuted :
+  exists h x e,
+    wfv x = false /\ encode jprint jparse 0 h (Some x) = Ok e /\
+    e_frames e <> spec_frames jprint (base_type (h_type h)) (h_nsp h) (h_id h) (Some (shape x)).
+Proof.
+  exists (mkHeader 2 [47%N] None 0),
+         (VPtr (VSlice [VAny (VStr [101%N]); VAny (VPtr (VAny (VBin [110; 117; 108; 108]%N)))])).
+  eexists. split; [reflexivity|]. split; [vm_compute; reflexivity|]. vm_compute. discriminate.
+Qed.
